@@ -63,8 +63,8 @@ def cases(tier, rng, schema, feats):
 
 
 def judge(line, m, i):
-    if core.norm(m) != core.norm(i):
-        return "model of the specification and implementation disagree"
+    if (core.norm(m).startswith("ok") != core.norm(i).startswith("ok")):
+        return "round trip succeeds on one side only (model of the specification vs implementation)"
     p = line.split("\t")
     if p[1] == "rtv" and i and i.startswith("ok "):
         got = i[3:].rsplit(" rest=", 1)[0]
